@@ -171,7 +171,7 @@ def run_kani_units(pid, tier, scratch, report, only=None):
     mods = {}
     mods = reg.modules_closure([h['module'] for h in hs])
     try:
-        hdir = ku.inject(xt_dir, scratch, list(mods.values()), reg.attr_inserts_for(mods.keys()))
+        hdir = ku.inject(xt_dir, scratch, list(mods.values()), reg.attr_inserts_for(list(mods.keys())))
     except ScanError as e:
         report['undecided'].append(dict(obligation='%s/kani-inject' % pid, backend='kani', reason='lost anchor: %s' % e))
         return None
